@@ -50,7 +50,7 @@ for _c in ("InputCount", "Conservation", "WrittenCount", "WrittenMatchesFiles", 
 # a model-dependent clause on a read whose deviation is explained by stages that only other properties own
 # (that deviation is theirs to report).  Clauses that compare observations with observations are never filtered.
 OWNERS = {
-    "cut": {"C10"}, "nextseq": {"C13"}, "qtrim": {"C13"}, "polya": {"C14"}, "trimn": {"C14"},
+    "cut": {"C10"}, "nextseq": {"C13"}, "qtrim": {"C13"}, "qparams": {"C10"}, "polya": {"C14"}, "trimn": {"C14"},
     "shorten": {"C10"}, "zerocap": {"C03", "C10"}, "name": {"C10"},
     "orient": {"C16"}, "choice": {"C09", "C05"}, "action": {"C03"}, "adapter": {"C03", "C05", "C09", "C16"},
     "record": {"C05", "C09", "C15", "C16", "C17", "C20"},
@@ -187,6 +187,11 @@ def replay(ctx, path):
         return
     ev["id"] = 0
     ev["want"] = (rp.get("case") or {}).get("want") or (["report"] + (["info"] if C.get("info") else []))
+    if "report_crash" in ev:
+        print("replay: the report could not be built:", ev["report_crash"])
+        if pid == "C04":
+            ctx.violation("RunCompletes", f"{pid}:crash:" + ev["report_crash"]["exc"][:60], dict(argv=ev["argv"], failed=ev["report_crash"]))
+        ev["want"] = [w for w in ev["want"] if w not in ("report", "stats")]
     out = GR.validate_runs(ctx, [ev], {0: sampler})
     seen = set()
     for clause, k in out.get(0, []):
